@@ -144,7 +144,7 @@ func checkCurrentBatchWriters(c *Ctx, rule string) {
 			default:
 				okAll := true
 				var leaves []string
-				for _, lf := range Leaves(st.Val, st.Block()) {
+				for _, lf := range LeavesDeep(st.Val, st.Block()) {
 					lt := TermOf(lf.V)
 					leaves = append(leaves, lt.String())
 					if lt.Op == "const" && lt.Name == "0" {
